@@ -84,11 +84,40 @@ def atom(v, cls: str, q: str | None):
     raise AnalysisError(f'condition outside the analysed subset in {cls}: {show(v)}')
 
 
+def private_helper_resolver(py: PyRepo, cls: str):
+    """PyEval resolver for the pattern module: PRIVATE helpers - `self._x(..)` methods of the class hierarchy and module-level
+    `_x(..)` functions - are implementation detail and are evaluated in place; the public API (constructors, judgements,
+    substitution methods, match_single ...) stays symbolic, because the rules reason about those calls."""
+    import ast as _ast
+    ci = py.cls(cls, 'pattern')
+    mi = py.modules[ci.module]
+
+    def resolver(call, env, _ev):
+        f = call.func
+        if isinstance(f, _ast.Name) and f.id.startswith('_') and not f.id.startswith('__') and f.id in mi.functions and f.id not in env:
+            return mi.functions[f.id], None
+        if isinstance(f, _ast.Attribute) and isinstance(f.value, _ast.Name) and env.get(f.value.id) == SELF \
+                and f.attr.startswith('_') and not f.attr.startswith('__'):
+            hit = py.find_method(ci, f.attr)
+            if hit is None:
+                return None
+            decos = [_ast.unparse(d).split('(')[0].split('.')[-1] for d in hit[1].decorator_list]
+            if 'property' in decos:
+                return None
+            if 'staticmethod' in decos:
+                return hit[1], None
+            if 'classmethod' in decos:
+                return hit[1], ('name', ci.name)
+            return hit[1], SELF
+        return None
+    return resolver
+
+
 def bool_method_df(py: PyRepo, cls: str, meth: str) -> DF:
     fn = py.method(cls, meth, 'pattern')
     params = [a.arg for a in fn.args.args]
     q = params[1] if len(params) > 1 else None
-    ev = PyEval()
+    ev = PyEval(resolver=private_helper_resolver(py, cls))
     try:
         paths = ev.paths(fn)
     except Decline as d:
@@ -248,7 +277,7 @@ def subst_method_outcomes(py: PyRepo, cls: str, meth: str):
     fn = py.method(cls, meth, 'pattern')
     params = [a.arg for a in fn.args.args[1:]]
     cz = PySubstCanon(cls, meth, params)
-    ev = PyEval()
+    ev = PyEval(resolver=private_helper_resolver(py, cls))
     try:
         paths = ev.paths(fn)
     except Decline as d:
@@ -282,7 +311,7 @@ def notation_op_verdict(py: PyRepo, op: str):
     carries `self.inst` over unchanged leaves occurrences inside the plugs untouched."""
     fn = py.method('Instantiate', op, 'pattern')
     params = tuple(('param', a.arg) for a in fn.args.args[1:])
-    ev = PyEval()
+    ev = PyEval(resolver=private_helper_resolver(py, 'Instantiate'))
     rets = [p for p in ev.paths(fn) if p.end[0] == 'return']
     want = ('call', ('attr', ('call', ('attr', SELF, 'simplify'), (), ()), op), params, ())
     if rets and all(p.end[1] == want for p in rets):
